@@ -21,7 +21,9 @@ TECHNIQUE = ('bounded exhaustive enumeration of generated programs: every synthe
              'Parser / Reader / Picker')
 RULE = ('Tripoli-4: listings = product of editions {1,2} x responses {1,2} x zones {1,2} x energy groups {1,2,3} printed decreasing or '
         'increasing x time steps {none, 2 increasing, 2 decreasing [3]} x value patterns {plain, (negative, zero, small[, 1e30])} x sigma '
-        'patterns x {converged, not converged} x keff {absent, present, not converged}; for every edition (by number and by index) every '
+        'patterns x {converged, not converged} x keff {absent, present, not converged}, plus angular spectra (2-3 mu zones, 0-2 phi zones inside, each '
+        'printed increasing or decreasing, with / without time steps) and results on a mesh (5 mesh sizes up to 2x1x3 cells x energy ranges, '
+        'energy-integrated cells, total); for every edition (by number and by index) every '
         'dataset of the browser is compared cell by cell with the printed value, value*sigma%/100, increasing bin edges and the response / '
         'score / zone metadata (values are unique per edition, response, zone, time step and group so that a swap cannot cancel). '
         'Apollo3: files = product of NOUT {1,2} x NZONE {1,2} x NG {1,2} x NISOT {0,1,2} x reactions {1,2} x total outputs present/absent, plus 2-3 outputs on one shared geometry with equal / rotated isotope lists and '
